@@ -62,6 +62,7 @@ TRUSTED = ["Gen.C07.widthY / ymins / ymaxs regenerated from BANE.filter_mc_share
 PARTIAL = []
 
 PHASES = ['p1', 'b1', 'a1', 'b2', 'a2', 'mk']
+FAULT_TYPES = ['MemoryError', 'OSError', 'KeyboardInterrupt', 'SystemExit', 'VerifBaseException']
 WATCHDOG = 8.0          # seconds without completion after every token has been released => hang
 
 
@@ -90,6 +91,25 @@ def child_main(cfg_path):
     logging.disable(logging.CRITICAL)
     from AegeanTools import BANE
     res = dict(outcome=None, etype=None, emsg=None)
+    ftype = cfg.get('fault_type') or 'RuntimeError'
+    if ftype != 'RuntimeError' and hasattr(BANE, '_verif_point'):
+        # the hook raises RuntimeError; the forked workers inherit this wrapper, which turns the injected fault
+        # into the exception type under test (the failure handling must not depend on the type)
+        class VerifBaseException(BaseException):
+            pass
+        types = dict(MemoryError=MemoryError, OSError=OSError, KeyboardInterrupt=KeyboardInterrupt,
+                     ValueError=ValueError, SystemExit=SystemExit, VerifBaseException=VerifBaseException,
+                     FloatingPointError=FloatingPointError)
+        real_point = BANE._verif_point
+
+        def typed_point(ymin, phase):
+            try:
+                return real_point(ymin, phase)
+            except RuntimeError as e:
+                if 'injected fault' in str(e):
+                    raise types[ftype]('verif hook: injected fault (%s) at %s %s' % (ftype, ymin, phase))
+                raise
+        BANE._verif_point = typed_point
     # observe the layout / pool / barrier the code really uses
     seen = {}
     import multiprocessing
@@ -243,7 +263,7 @@ def shm_names():
 
 
 def run_bane(workdir, tag, fits_path, shape, step, box, cores, nslice, mask, schedule=None, faults=(),
-             hook=True, entry='mc', watchdog=WATCHDOG, patience=0.35, interrupt=False):
+             hook=True, entry='mc', watchdog=WATCHDOG, patience=0.35, interrupt=False, fault_type=None):
     """
     One BANE run in a child process group.
     schedule: None (free run: hook only logs) or a list of grants (ymin_index, phase, settle) where
@@ -256,7 +276,7 @@ def run_bane(workdir, tag, fits_path, shape, step, box, cores, nslice, mask, sch
     vdir = os.path.join(out, 'v')
     os.makedirs(vdir, exist_ok=True)
     cfg = dict(repo=common.repo_path(), out=out, fits=fits_path, shape=list(shape), step=list(step), box=list(box),
-               cores=cores, nslice=nslice, mask=bool(mask), entry=entry)
+               cores=cores, nslice=nslice, mask=bool(mask), entry=entry, fault_type=fault_type)
     cfgp = os.path.join(out, 'cfg.json')
     json.dump(cfg, open(cfgp, 'w'))
     env = dict(os.environ)
@@ -309,7 +329,8 @@ def run_bane(workdir, tag, fits_path, shape, step, box, cores, nslice, mask, sch
                 layout = json.load(open(layp))
                 ymins = [r[0] for r in layout['regions']]
                 if hook:
-                    for i, ph in faults:
+                    for flt in faults:
+                        i, ph = flt[0], flt[1]
                         if i < len(ymins):
                             open(os.path.join(vdir, f'fault.{ymins[i]}.{ph}'), 'w').close()
                 faults_made = True
@@ -712,7 +733,8 @@ def do_run(ctx, work, tag, cfg, schedule=None, faults=(), hook=True, watchdog=WA
     pair = lambda v: tuple(v) if isinstance(v, (list, tuple)) else (v, v)  # noqa: E731
     r = run_bane(work, tag, fpath, (cfg.rows, cfg.cols), pair(cfg.step), pair(cfg.box), cfg.cores,
                  cfg.nslice, cfg.mask, schedule=schedule, faults=faults, hook=hook, entry=cfg.entry, watchdog=watchdog,
-                 patience=max(0.35, watchdog / 20.0))
+                 patience=max(0.35, watchdog / 20.0),
+                 fault_type=next((f[2] for f in faults if len(f) > 2), None))
     r['fits'] = fpath
     return r
 
@@ -780,6 +802,9 @@ def judge(ctx, cfg, r, schedule, faults, hookmode, ref, trace_out=None, pinned_o
     emsg = (res.get('emsg') or '')
     ok = True
     sig_base = dict(stripes_gt_cores=bool(n > cfg.cores), fault=bool(fault_raised))
+    ftype = next((f[2] for f in faults if len(f) > 2), None)
+    if ftype and fault_raised:
+        sig_base['fault_type'] = ftype
     if outcome in ('child-died', 'interrupt', 'exit'):
         ctx.fail('spec', case, f"BANE ended with {outcome}: {emsg[-300:]} {r.get('stderr', '')[-300:]}",
                  dict(sig_base, what=outcome))
@@ -787,7 +812,7 @@ def judge(ctx, cfg, r, schedule, faults, hookmode, ref, trace_out=None, pinned_o
     if outcome == 'hang':
         detail = (f"BANE did not return within {_WD[0] or WATCHDOG:.0f}s (and {3 * (_WD[0] or WATCHDOG):.0f}s on a re-run) of the last released synchronisation point "
                   f"({n} stripes, pool of {procs}, barrier parties {lay.get('parties')}, cores={cfg.cores}, "
-                  f"fault raised: {fault_raised}); events: {' '.join(trace_tokens(r) or [])}")
+                  f"fault raised: {fault_raised}{' as ' + ftype if ftype and fault_raised else ''}); events: {' '.join(trace_tokens(r) or [])}")
         if pinned_out:
             detail += f"; pinned-protocol model on this trace: {pinned_out}"
         ctx.fail('spec', case, detail, dict(sig_base, what='hang'))
@@ -878,8 +903,18 @@ def plan_runs(ctx, cfgs, thorough):
         for x, ph in fl:
             plan.append((cfg, sched_fault(n, x, ph, cfg.mask), ((x, ph),), 'sched', 'fault-others-first'))
             plan.append((cfg, sched_fault_first(n, x, ph, cfg.mask), ((x, ph),), 'sched', 'fault-first'))
+    # the failure handling must not depend on the exception TYPE: the same schedules with other types, including
+    # exceptions that are not `Exception`s (the hook's RuntimeError is re-typed by a wrapper the workers inherit)
+    multi = [(c, n) for c, n in cfgs if 2 <= n <= 4 and not c.light]
+    if multi:
+        for ft in FAULT_TYPES:
+            picks = [multi[0], multi[0], rng.choice(multi[1:] or multi)] if not thorough else [multi[0]] * 4 + multi[1:]
+            for k, (cfg, n) in enumerate(picks):
+                x, ph = rng.randrange(n), rng.choice(['p1', 'b1', 'a1', 'b2'] if cfg.mask else ['p1', 'b1', 'a1'])
+                mk_s = sched_fault_first if k % 2 else sched_fault
+                plan.append((cfg, mk_s(n, x, ph, cfg.mask), ((x, ph, ft),), 'sched', 'fault-typed'))
     # the most diagnostic runs first (the plan is executed in chunks and stops early once something went wrong)
-    prio = {'free-nohook': 0, 'free-hook': 0, 'fault-first': 1, 'fault-others-first': 1, 'fast-stripe': 1, 'orders': 3}
+    prio = {'fault-typed': 1, 'free-nohook': 0, 'free-hook': 0, 'fault-first': 1, 'fault-others-first': 1, 'fast-stripe': 1, 'orders': 3}
     plan = [p for _, p in sorted(enumerate(plan), key=lambda kp: (prio.get(kp[1][4], 2), kp[0]))]
     return plan
 
@@ -1008,13 +1043,16 @@ def execute(ctx, plan, parallel=5):
 SENS_C = 0.5
 SENS_CLEAN = ("measured on /repo (hook + fixes committed), VERIF_SEED 0-4 x 2 images per box: nslice 2 and 4 (stripe edges on grid "
               "nodes): 0.000/0.000; nslice 3 (edges off the grid): tall 80x16 bkg<=0.116 rms<=0.155, wide 16x80 bkg<=0.356 "
-              "rms<=0.069, square 32x32 bkg<=0.254 rms<=0.088")
+              "rms<=0.069, square 32x32 bkg<=0.254 rms<=0.088; 70016x8 image (one stripe > 2^16 rows) vs 2 and 4 stripes (edges on "
+              "grid nodes): 0.000/0.000 (70000 rows, 4 stripes off the grid: <=0.24/0.27)")
 
 # (rows, cols, grid(rows, cols), box(rows, cols)) — non-square boxes in both orientations, and square; grid != box/n
 SENS_CASES = [
-    ('tall', 160, 48, (8, 8), (80, 16)),
-    ('wide', 160, 48, (8, 8), (16, 80)),
-    ('square', 160, 48, (8, 8), (32, 32)),
+    ('tall', 160, 48, (8, 8), (80, 16), (2, 3, 4), 'grad:0.5'),
+    ('wide', 160, 48, (8, 8), (16, 80), (2, 3, 4), 'grad:0.5'),
+    ('square', 160, 48, (8, 8), (32, 32), (2, 3, 4), 'grad:0.5'),
+    # more than 2^16 rows in ONE stripe (size threshold: narrowed index dtypes, block-wise loops); tiny in bytes
+    ('rows>65536', 70016, 8, (8, 8), (24, 8), (2, 4), 'grad:0.01'),
 ]
 
 
@@ -1026,17 +1064,20 @@ def sensitivity(ctx, cases=None, slices=(2, 3, 4), nseeds=1):
     work = os.path.join(ctx.tmpdir(), f'sens{_BATCH[0]}')
     os.makedirs(work, exist_ok=True)
     jobs = []
-    for name, rows, cols, grid, box in (cases or SENS_CASES):
-        for k in range(nseeds):
+    for cs in (cases or SENS_CASES):
+        name, rows, cols, grid, box = cs[:5]
+        cslices = cs[5] if len(cs) > 5 and slices == (2, 3, 4) else slices
+        content = cs[6] if len(cs) > 6 else 'grad:0.5'
+        for k in range(nseeds if rows < 10000 else 1):
             imgseed = ctx.rng.randrange(1, 10 ** 6)
-            for ns in (1,) + tuple(slices):
-                cfg = Config(rows, cols, list(grid), list(box), 4, ns, True, 'filter_image', content='grad:0.5')
+            for ns in (1,) + tuple(cslices):
+                cfg = Config(rows, cols, list(grid), list(box), 4, ns, True, 'filter_image', content=content)
                 cfg.imgseed = imgseed
                 jobs.append((name, imgseed, ns, cfg))
 
     def one(j):
         name, imgseed, ns, cfg = jobs[j]
-        return do_run(ctx, work, f's{j}', cfg, hook=False, watchdog=max(wd, 20))
+        return do_run(ctx, work, f's{j}', cfg, hook=False, watchdog=max(wd, 20) * (4 if cfg.rows > 10000 else 1))
     with ThreadPoolExecutor(max_workers=5) as ex:
         res = list(ex.map(one, range(len(jobs))))
     maps = {}
@@ -1064,7 +1105,7 @@ def sensitivity(ctx, cases=None, slices=(2, 3, 4), nseeds=1):
         ctx.case(dict(case, dbkg=round(db, 4), drms=round(dr, 4)), nontrivial_key=('sens', name, imgseed, ns))
         if not (db <= SENS_C and dr <= SENS_C) or not np.isfinite(db) or not np.isfinite(dr):
             ctx.fail('spec', case,
-                     f"{nreal} stripes vs 1 stripe on a {cfg.rows}x{cfg.cols} image with a 0.5 sigma/row gradient, grid {cfg.step}, "
+                     f"{nreal} stripes vs 1 stripe on a {cfg.rows}x{cfg.cols} image with a {cfg.content.split(':')[1]} sigma/row gradient, grid {cfg.step}, "
                      f"box {cfg.box} ({name}): max|dbkg|/noise = {db:.3f}, max|drms|/noise = {dr:.3f} (largest near row {where}); "
                      f"the property allows a small fraction of the noise (bound {SENS_C}; clean tree: {SENS_CLEAN})",
                      dict(what='stripe-count-sensitivity', orientation=name))
@@ -1162,8 +1203,9 @@ def replay(ctx, rec):
     if c.get('kind') == 'sensitivity':
         g = c['cfg']
         ctx.rng.seed(c.get('imgseed', 0))
-        sensitivity(ctx, cases=[(c.get('orientation', 'replay'), g['rows'], g['cols'], tuple(g['step']), tuple(g['box']))],
-                    slices=(g['nslice'],) if g['nslice'] != 1 else (2, 3, 4))
+        sensitivity(ctx, cases=[(c.get('orientation', 'replay'), g['rows'], g['cols'], tuple(g['step']), tuple(g['box']),
+                                 (g['nslice'],) if g['nslice'] != 1 else (2, 4), g.get('content', 'grad:0.5'))],
+                    slices=(g['nslice'],) if g['nslice'] != 1 else (2, 4))
         return
     cfg = Config.of(c['cfg'])
     schedule = [tuple(x) for x in c.get('schedule') or []] or None
